@@ -22,8 +22,10 @@ PROBES = {"C13": ["stretch_inside_training", "stretch_overlapping_end", "stretch
                   "nonzero_origin", "pickle_midway", "pipeline_as_transformer", "seasonal_fit_checked",
                   "reconfigured_and_refitted", "strided_stretch", "refitted_on_other_stretch",
                   "frozen_update_checked", "period_changed_and_refitted",
-                  "fit_transform_on_fitted_instance", "unpaired_calls_checked"]}
-FAULT_KINDS = {"C13": ["index_shift", "pickle_roundtrip", "update_interleaved", "overlap_batch"]}
+                  "fit_transform_on_fitted_instance", "unpaired_calls_checked",
+                  "sibling_from_same_arguments"]}
+FAULT_KINDS = {"C13": ["index_shift", "pickle_roundtrip", "update_interleaved", "overlap_batch",
+                       "shared_constructor_arguments"]}
 RULE = {"C13": (
     "seeded transformer configuration x series x history of fit, round trips on stretches that "
     "start inside / across the end of / after the training series, interleaved update calls and "
@@ -154,6 +156,8 @@ def generate(prop, rng, tier):
         elif r < 0.94:
             ops.append({"op": "refit", "start": rng.randint(1, 7),
                         "via": rng.choice(["fit", "fit_transform"])})
+        elif r < 0.955:
+            ops.append({"op": "sibling", "start": rng.randint(0, 6)})
         elif r < 0.98 and minstretch == 1:
             ops.append({"op": "unpaired", "where": rng.choice(["inside", "overlap", "after"]),
                         "off": rng.randint(0, 9), "len": rng.randint(2, 8),
@@ -395,6 +399,22 @@ def execute(prop, scen):
                 fitted, pos, updates_since_fit = True, n_fit, 0
                 if not after_fit():
                     break
+            elif o == "sibling":
+                # another transformer built from the very same constructor argument objects
+                # (the user's scaler / forecaster / wrapped transformer), fitted on other data:
+                # the transformer under test owns private fitted copies, so it is unaffected
+                st = op["start"]
+                for tr, yy in ((t, y), (t2, y2)):
+                    try:
+                        with peers.paused():
+                            sib = type(tr)(**tr.get_params(deep=False))
+                            zz_ = yy.iloc[st:st + n_fit] * 3.0 + 5.0
+                            sib.fit(zz_)
+                            sib.transform(zz_.copy())
+                    except Exception:
+                        pass
+                res.probe("sibling_from_same_arguments")
+                res.fault("shared_constructor_arguments")
             elif o == "unpaired":
                 # a transform of one stretch followed by an inverse_transform of ANOTHER stretch
                 # (same first time point, same number of points, other time points), or the other
